@@ -37,7 +37,7 @@ fn lc_table(names: &[String]) -> String {
         for c in n.chars() {
             if !c.is_ascii() {
                 let l: String = c.to_lowercase().collect();
-                set.insert(format!("{}:{}", hexs(&c.to_string()), hexs(&l)));
+                set.insert(format!("{}:{}:{}", hexs(&c.to_string()), hexs(&l), c.is_uppercase() as u8));
             }
         }
     }
